@@ -5,8 +5,8 @@
 From Coq Require Import String.
 From Coq Require Import List Arith Bool ZArith Reals Ring.
 From NV.Lib Require Import RingMat C08Base.
-From NV.Generated Require Import AffineClasses.
-From NV.C08 Require Import Model Proofs Proofs2 Proofs3 ProofsR.
+From NV.Generated Require Import AffineClasses AffineClip.
+From NV.C08 Require Import Model Proofs Proofs2 Proofs3 ProofsR Clip Proofs4.
 Import ListNotations.
 Close Scope R_scope.
 Open Scope list_scope.
@@ -353,4 +353,75 @@ Example quarter_turn_is_rot3 :
   is_rot3 Z 0%Z 1%Z Z.add Z.mul Z.sub [[0; -1; 0]; [1; 0; 0]; [0; 0; 1]]%Z.
 Proof.
   split; [split; [reflexivity|repeat constructor]|]. repeat split; vm_compute; reflexivity.
+Qed.
+
+(* ---------------------------------------------------------------- clipping (round 6) *)
+(* (17) `threshold(x, th)` as translated from the source (src_threshold), for every bound th >= 0 and every
+   value x: the result lies in [-th, th]; it is x itself exactly when x is in that range, th above it and -th
+   below it; it is a nearest point of the range, odd in x (so a reflected parameter clips to the reflected
+   value) and monotone. *)
+Theorem threshold_clips :
+  forall th x : Z, (0 <= th)%Z ->
+  in_range th (src_threshold x th) /\
+  (src_threshold x th = x <-> in_range th x) /\
+  ((th < x)%Z -> src_threshold x th = th) /\
+  ((x < - th)%Z -> src_threshold x th = (- th)%Z) /\
+  (forall y, in_range th y -> (Z.abs (src_threshold x th - x) <= Z.abs (y - x))%Z) /\
+  src_threshold (- x) th = (- src_threshold x th)%Z /\
+  (forall y, (x <= y)%Z -> (src_threshold x th <= src_threshold y th)%Z).
+Proof.
+  intros th x Hth. destruct (threshold_spec_lemma th x Hth) as [H1 [_ [H3 H4]]].
+  split; [exact H1|]. split; [exact (threshold_fixed_iff th x Hth)|]. split; [exact H3|]. split; [exact H4|].
+  split; [intros y Hy; exact (threshold_nearest_lemma th x y Hth Hy)|].
+  split; [exact (threshold_odd_lemma th x Hth)|intros y Hy; exact (threshold_monotone_lemma th x y Hy)].
+Qed.
+Print Assumptions threshold_clips.
+
+(* (18) the same on arrays of ANY length (numpy broadcasting of the scalar bound; induction on the array):
+   length kept, every entry in [-th, th], the array is returned unchanged exactly when all its entries are in
+   range, clipping twice = clipping once, entry i is threshold of entry i. *)
+Theorem clip_vec_clips :
+  forall th v, (0 <= th)%Z ->
+  length (clip_vec th v) = length v /\
+  Forall (in_range th) (clip_vec th v) /\
+  (clip_vec th v = v <-> Forall (in_range th) v) /\
+  clip_vec th (clip_vec th v) = clip_vec th v /\
+  (forall i, (i < length v)%nat -> nth i (clip_vec th v) 0%Z = src_threshold (nth i v 0%Z) th).
+Proof. exact clip_vec_spec_lemma. Qed.
+Print Assumptions clip_vec_clips.
+
+Theorem clip_vec_reflects :
+  forall th v, (0 <= th)%Z -> clip_vec th (map Z.opp v) = map Z.opp (clip_vec th v).
+Proof. exact clip_vec_odd_lemma. Qed.
+Print Assumptions clip_vec_reflects.
+
+(* (19) to_matrix44 with the clip inside the model (translation slice, MAX_DIST and the threshold body all
+   read from the source; the slot agrees with the one AffineClasses found for T[0:3, 3]): for every size,
+   every linear part with 3 rows and every raw vector t long enough, the translation column of the result is
+   the clipped slice t[0:3]; its entries are within MAX_DIST; and it equals t[0:3] - i.e. the matrix carries
+   the translation parameters unchanged - exactly when they are within MAX_DIST.  This turns the former
+   assumption "translations within MAX_DIST" into a stated boundary. *)
+Theorem to_matrix44_translation_clipped :
+  forall size rot dg tv t,
+  length (eval_mexpr Z 0%Z Z.add Z.mul rot dg tv (lin_expr size)) = src_clip_trans_n ->
+  (src_clip_trans_lo + src_clip_trans_n <= length t)%nat ->
+  let col := trans_part Z 0%Z (zto_matrix44 size rot dg tv t) in
+  let raw := zslice src_clip_trans_lo src_clip_trans_n t in
+  col = clip_vec src_max_dist raw /\ length col = src_clip_trans_n /\
+  Forall (in_range src_max_dist) col /\
+  (col = raw <-> Forall (in_range src_max_dist) raw).
+Proof. exact zto_matrix44_translation_lemma. Qed.
+Print Assumptions to_matrix44_translation_clipped.
+
+(* non-vacuity: a 6-vector with translations 3e10, -5, -2e10 and no rotation: the matrix has translation
+   column (1e10, -5, -1e10) (clipped at MAX_DIST = 1e10 as read from the source) *)
+Example to_matrix44_clip_concrete :
+  let t := [30000000000; -5; -20000000000; 0; 0; 0]%Z in
+  zto_matrix44 6 (fun _ => zI3) (fun _ => zI3) (fun _ => 0%Z) t
+  = [[1; 0; 0; 10000000000]; [0; 1; 0; -5]; [0; 0; 1; -10000000000]; [0; 0; 0; 1]]%Z
+  /\ ~ Forall (in_range src_max_dist) (zslice src_clip_trans_lo src_clip_trans_n t)
+  /\ clip_vec 7 [-9; -7; 0; 7; 8]%Z = [-7; -7; 0; 7; 7]%Z.
+Proof.
+  split; [vm_compute; reflexivity|]. split; [|vm_compute; reflexivity].
+  intros H. inversion H as [|a b Ha Hb]; subst. vm_compute in Ha. destruct Ha as [_ Ha]. apply Ha. reflexivity.
 Qed.
